@@ -1179,6 +1179,8 @@ def store_order_constraints(repo):
         ks = [a.text.split("==")[1].strip().strip("'\"")
               for a in conditions_at(node)
               if a.pol and a.text.startswith("key == ")]
+        if len(set(ks)) > 1:
+            continue        # `key` equals two different names: dead code
         for K in ks:
             if K == other:
                 continue
